@@ -9,12 +9,15 @@ timeutils.now replaced by a scripted clock, once per (duration, clock) of the ca
           xt:V / xt:B  __exit__(type, value, traceback) called directly with the triple of a real, raised-and-caught
                        ValueError / BaseException-only exception
           wn[body] / wV[body] / wB[body]   a real `with sw as x: body [; raise ValueError | a BaseException-only class]`
-                       statement executed by the harness (body = '+'-joined tokens, may be empty); it is flattened into the
+                       statement executed by the harness (body = '/'-joined tokens, may be empty); it is flattened into the
                        calls  en, body..., wx | wx:V | wx:B  where wx* is the __exit__ the interpreter makes; its outcome is
                        None (no exception), PROP:<kind> (the body's exception propagated out of the with statement),
                        SUPPRESSED (it did not), or EXN:<class> (something else came out)
-  numbers in a case (clock readings, durations, maxima) are integers; the implementation gets value/scale as a
-  float (scale is a power of two, so float subtraction/comparison is exact) and the outputs are scaled back.
+  op 'run' / 'last' (model instance T := Z): numbers in a case (clock readings, durations, maxima) are integers; the
+  implementation gets value/scale as a float (scale is a power of two, so float subtraction/comparison is exact) and the
+  outputs are scaled back.
+  op 'frun' / 'flast' (model instance T := binary64): numbers are ARBITRARY finite doubles, written float.hex() in the case,
+  sent to the model as <m>p<e> (= m * 2^e exactly) and compared bit-exactly through float.hex().
 
 Canonical output of a call:  result;now-calls;state,started_at,stopped_at,splits,duration
 """
@@ -34,6 +37,9 @@ def _tu():
 
 def _num(v, scale):
     if isinstance(v, bool) or not isinstance(v, (int, float)): return 'OTHER:' + type(v).__name__
+    if scale == 'f':
+        try: return float(v).hex()
+        except OverflowError: return 'OTHER:hugeint'
     x = v * scale
     try:
         if x == int(x): return str(int(x))
@@ -76,7 +82,7 @@ def _arg(tok, scale):
     if a == 'N': return None
     if a == 'T': return True
     if a == 'F': return False
-    return int(a) / scale
+    return float.fromhex(a) if scale == 'f' else int(a) / scale
 
 def _call(sw, tok, scale):
     name = tok[:2]
@@ -108,10 +114,10 @@ def _triple(kind):
         return type(e), e, e.__traceback__
 
 def parse_with(tok):
-    """'wV[sp+rs]' -> ('V', ['sp', 'rs'])"""
+    """'wV[sp/rs]' -> ('V', ['sp', 'rs'])"""
     kind = tok[1]
     inner = tok[tok.index('[') + 1:tok.rindex(']')]
-    return kind, ([t for t in inner.split('+')] if inner else [])
+    return kind, ([t for t in inner.split('/')] if inner else [])
 
 def flat(ops):
     """the calls a history makes, one token per call (with blocks flattened)"""
@@ -160,12 +166,15 @@ def exec_token(tu, sw, tok, scale, pos):
 
 def _duration(d, scale, dint):
     if d is None or d == 'D': return d
+    if scale == 'f':
+        x = float.fromhex(d)
+        return int(x) if (dint and x.is_integer() and abs(x) < 2 ** 53) else x
     return d // scale if (dint and d % scale == 0) else d / scale
 
 def run_history(tu, d, ops, clock, scale, dint=False):
     """one history on the real class; returns the list of per-call canonical strings, or 'EXN:…' when the constructor raises"""
     pos = [0]
-    readings = [c / scale for c in clock]
+    readings = [float.fromhex(c) for c in clock] if scale == 'f' else [c / scale for c in clock]
     def fake_now():
         i = pos[0]; pos[0] = i + 1
         return readings[i]
@@ -188,16 +197,30 @@ def impl(c):
     runs = []
     for d in c['durs']:
         for clock in c['clocks']:
-            h = run_history(tu, d, c['ops'], clock, c.get('scale', 1), c.get('dint', False))
+            h = run_history(tu, d, c['ops'], clock, 'f' if c['op'][0] == 'f' else c.get('scale', 1), c.get('dint', False))
             runs.append(h if isinstance(h, str) else '|'.join(h))
     return '#'.join(runs)
 
+def fenc(h):
+    """float.hex string -> '<m>p<e>' with value m * 2^e exactly"""
+    import math
+    x = float.fromhex(h)
+    m, e = math.frexp(x)
+    return '%dp%d' % (int(m * 2 ** 53), e - 53)
+
 def encode(c):
+    if c['op'][0] == 'f':
+        durs = ','.join('N' if d is None else ('D' if d == 'D' else fenc(d)) for d in c['durs'])
+        toks = []
+        for t in flat(c['ops']):
+            if t[:2] == 'el' and ':' in t and t[3:] != 'N': t = 'el:' + fenc(t[3:])
+            toks.append(t)
+        return [c['op'], durs, ','.join(toks)] + [','.join(fenc(x) for x in clock) for clock in c['clocks']]
     durs = ','.join('N' if d is None else str(d) for d in c['durs'])
     return [c['op'], durs, ','.join(flat(c['ops']))] + [','.join(map(str, clock)) for clock in c['clocks']]
 
 def project(c, io):
-    if c['op'] != 'last': return io
+    if c['op'] not in ('last', 'flast'): return io
     res = []
     for run in io.split('#'):
         res.append(run if run.startswith('EXN:') and '|' not in run and ';' not in run else (run.split('|')[-1] if run else '-'))
@@ -207,27 +230,50 @@ def project(c, io):
 
 ALWAYS_LEGAL = {'st', 'rt', 'en', 'xt', 'wx', 'hs', 'hp', 'ss'}
 
-def _parse_split(s):
-    e, l = s[2:-1].split(',')
-    return int(e), int(l)
+class ZN:
+    """numbers of the oracle, exact integers"""
+    zero = 0
+    parse = staticmethod(int)
+    sub = staticmethod(lambda a, b: a - b)
+    show = staticmethod(str)
 
-def _parse_splits(s):
+class FN:
+    """numbers of the oracle on a float clock: the clock distance is the EXACT rational difference, correctly rounded to a
+    double (fractions.Fraction, no float subtraction involved) — what IEEE subtraction must return"""
+    zero = 0.0
+    parse = staticmethod(float.fromhex)
+    @staticmethod
+    def sub(a, b):
+        from fractions import Fraction
+        import math
+        if math.isinf(a) or math.isinf(b) or math.isnan(a) or math.isnan(b): return a - b
+        q = Fraction(a) - Fraction(b)
+        try: return float(q)
+        except OverflowError: return math.inf if q > 0 else -math.inf
+    show = staticmethod(lambda x: float(x).hex())
+
+def _parse_split(s, num=ZN):
+    e, l = s[2:-1].split(',')
+    return num.parse(e), num.parse(l)
+
+def _parse_splits(s, num=ZN):
     if s == '[]': return []
-    return [_parse_split('S(' + x) for x in s[1:-1].split('S(')[1:]]
+    return [_parse_split('S(' + x, num) for x in s[1:-1].split('S(')[1:]]
 
 class Ref:
     """A tiny reference computed from the call log alone: the state, the readings taken by the last (re)start and
     by the last stop, and the splits returned since.  feed() checks one call against the property statement."""
-    __slots__ = ('d', 'state', 'start_r', 'stop_r', 'splits', 'pos', 'mono', 'prev_snap', 'n')
+    __slots__ = ('d', 'state', 'start_r', 'stop_r', 'splits', 'pos', 'mono', 'prev_snap', 'n', 'num')
 
-    def __init__(self, d):
-        self.d = d                  # None | scaled integer
+    def __init__(self, d, num=ZN):
+        self.num = num
+        self.d = d                  # None | number
         self.state = None           # None | 'R' | 'P'
         self.start_r, self.stop_r = (), ()
         self.splits = ()            # (elapsed, length) of the Split objects returned since the last (re)start
         self.pos = 0                # clock readings consumed so far
         self.mono = True            # ... and they never decreased
-        self.prev_snap = 'N,None,None,[],%s' % ('None' if d is None else d)
+        self.prev_snap = 'N,None,None,[],%s' % ('None' if d is None else num.show(d))
         self.n = 0
 
     def copy(self):
@@ -239,7 +285,8 @@ class Ref:
         return (self.state, self.start_r, self.stop_r, self.splits, self.pos, self.mono, self.prev_snap)
 
     def feed(self, clock, tok, entry):
-        d, state = self.d, self.state
+        d, state, num = self.d, self.state, self.num
+        zero = num.zero
         self.n += 1
         where = 'call %d (%s)' % (self.n, tok)
         try:
@@ -280,7 +327,7 @@ class Ref:
         def elapsed_candidates():
             """admissible elapsed values (None = any non-negative value: the clock went backwards)"""
             ends = consumed if state == 'R' else stop_r
-            return [(n - s0 if n - s0 >= 0 else None) for s0 in start_r for n in ends]
+            return [(num.sub(n, s0) if num.sub(n, s0) >= zero else None) for s0 in start_r for n in ends]
         def admissible(v, f):
             """v is f(e) for an admissible elapsed value e"""
             cs = elapsed_candidates()
@@ -292,53 +339,53 @@ class Ref:
                 if f(e) == v: return True
             return False
         if name == 'el':
-            try: v = int(res)
+            try: v = num.parse(res)
             except ValueError: return '%s returned %s' % (where, res)
-            if v < 0: return '%s: elapsed is negative (%d)' % (where, v)
-            m = None if arg in (None, 'N') else int(arg)
+            if not v >= zero: return '%s: elapsed is negative (%s)' % (where, v)
+            m = None if arg in (None, 'N') else num.parse(arg)
             if state == 'R' and not consumed: return '%s: elapsed while running did not read the clock' % where
             ok = admissible(v, lambda e: e)
-            if m is not None and m >= 0 and v > m: return '%s: elapsed %d exceeds the requested maximum %d' % (where, v, m)
+            if m is not None and m >= zero and v > m: return '%s: elapsed %s exceeds the requested maximum %s' % (where, v, m)
             if m is not None and not ok:
                 # above the maximum any value in 0..max(0, m) respects the statement
                 cs = [e for e in elapsed_candidates() if e is not None]
-                if any(e > m for e in cs) and 0 <= v <= max(0, m): ok = True
-            if not ok: return '%s: elapsed %d is not the clock distance (start readings %s, %s readings %s)' % (
+                if any(e > m for e in cs) and zero <= v <= max(zero, m): ok = True
+            if not ok: return '%s: elapsed %s is not the clock distance (start readings %s, %s readings %s)' % (
                 where, v, list(start_r), 'now' if state == 'R' else 'stop', list(consumed if state == 'R' else stop_r))
         elif name == 'lo':
             if d is None:
                 if res != 'None': return '%s: leftover(return_none=True) without duration returned %s' % (where, res)
             else:
-                try: v = int(res)
+                try: v = num.parse(res)
                 except ValueError: return '%s returned %s' % (where, res)
                 if not consumed: return '%s: leftover did not read the clock' % where
-                ok = admissible(v, lambda e: max(0, d - e))
-                if ok == 'any': ok = 0 <= v <= d
-                if not ok: return '%s: leftover %d is not max(0, duration %d - elapsed) (start %s, now %s)' % (where, v, d, list(start_r), list(consumed))
+                ok = admissible(v, lambda e: max(zero, num.sub(d, e)))
+                if ok == 'any': ok = zero <= v <= d
+                if not ok: return '%s: leftover %s is not max(0, duration %s - elapsed) (start %s, now %s)' % (where, v, d, list(start_r), list(consumed))
         elif name == 'ex':
             if res not in ('True', 'False'): return '%s returned %s' % (where, res)
             if d is not None:
                 if state == 'R' and not consumed: return '%s: expired while running did not read the clock' % where
                 ok = admissible(res, lambda e: 'True' if e > d else 'False')
-                if not ok: return '%s: expired is %s but elapsed > duration %d is not (start %s, end %s)' % (
+                if not ok: return '%s: expired is %s but elapsed > duration %s is not (start %s, end %s)' % (
                     where, res, d, list(start_r), list(consumed if state == 'R' else stop_r))
         elif name == 'sl':
-            try: e, l = _parse_split(res)
+            try: e, l = _parse_split(res, num)
             except Exception: return '%s returned %s' % (where, res)
-            if e < 0: return '%s: split elapsed is negative' % where
+            if not e >= zero: return '%s: split elapsed is negative' % where
             if not consumed: return '%s: split did not read the clock' % where
             ok = admissible(e, lambda x: x)
-            if not ok: return '%s: split elapsed %d is not the clock distance (start %s, now %s)' % (where, e, list(start_r), list(consumed))
+            if not ok: return '%s: split elapsed %s is not the clock distance (start %s, now %s)' % (where, e, list(start_r), list(consumed))
             if mono:
-                if splits and e < splits[-1][0]: return '%s: split elapsed decreased %d -> %d under a monotonic clock' % (where, splits[-1][0], e)
-                want = e - splits[-1][0] if splits else e
-                if l != want: return '%s: split length %d is not the difference to the previous split (%d)' % (where, l, want)
+                if splits and e < splits[-1][0]: return '%s: split elapsed decreased %s -> %s under a monotonic clock' % (where, splits[-1][0], e)
+                want = num.sub(e, splits[-1][0]) if splits else e
+                if l != want: return '%s: split length %s is not the difference to the previous split (%s)' % (where, l, want)
             splits = splits + ((e, l),)
         elif name in ('hs', 'hp'):
             want = (state == 'R') if name == 'hs' else (state == 'P')
             if res != str(want): return '%s returned %s in state %s' % (where, res, state)
         elif name == 'ss':
-            try: got = _parse_splits(res)
+            try: got = _parse_splits(res, num)
             except Exception: return '%s returned %s' % (where, res)
             if got != list(splits): return '%s: splits are %s, the splits taken since the last (re)start are %s' % (where, got, list(splits))
         # ---- transitions
@@ -359,15 +406,15 @@ class Ref:
         # ---- the watch is in the state the state machine says, holding the splits taken since the last (re)start
         tag = snap.split(',', 1)[0]
         if tag != (state or 'N'): return '%s: the watch is in state %s, the state machine says %s' % (where, tag, state or 'N')
-        try: held = _parse_splits(snap[snap.index('['):snap.rindex(']') + 1])
+        try: held = _parse_splits(snap[snap.index('['):snap.rindex(']') + 1], num)
         except Exception: return '%s: unreadable splits in %s' % (where, snap)
         if held != list(splits): return '%s: the watch holds splits %s, expected %s' % (where, held, list(splits))
         self.prev_snap = snap
         return None
 
-def check_history(d, ops, clock, log):
-    """d: None | int (scaled); log: per-call canonical strings.  Returns None or a message."""
-    ref = Ref(d)
+def check_history(d, ops, clock, log, num=ZN):
+    """d: None | number; log: per-call canonical strings.  Returns None or a message."""
+    ref = Ref(d, num)
     for tok, entry in zip(flat(ops), log):
         msg = ref.feed(clock, tok, entry)
         if msg: return msg
@@ -376,11 +423,13 @@ def check_history(d, ops, clock, log):
 def oracle(c, io):
     runs = io.split('#')
     k = 0
+    num = FN if c['op'][0] == 'f' else ZN
     for d in c['durs']:
         for clock in c['clocks']:
             run = runs[k] if k < len(runs) else ''
             k += 1
-            dd = None if d in (None, 'D') else d
+            dd = None if d in (None, 'D') else (num.parse(d) if num is FN else d)
+            if num is FN: clock = [float.fromhex(x) for x in clock]
             if dd is not None and dd < 0:
                 # not part of the property (constructor argument check); nothing demanded
                 continue
@@ -389,7 +438,7 @@ def oracle(c, io):
             if run.startswith('HARNESS'): return run
             log = run.split('|') if run else []
             if len(log) != len(flat(c['ops'])): return 'the history made %d calls, %d expected (did __enter__ raise?): %s' % (len(log), len(flat(c['ops'])), run[:200])
-            msg = check_history(dd, c['ops'], clock, log)
+            msg = check_history(dd, c['ops'], clock, log, num)
             if msg: return 'duration %r, clock %s...: %s' % (d, clock[:8], msg)
     return None
 
@@ -411,7 +460,7 @@ def std_clocks(n):
     return [clock_of(p, n) for p in PATTERNS.values()]
 
 # the context-manager protocol with a real exception: direct __exit__ calls with a triple, and real with statements
-CONTEXT = ['xt:V', 'xt:B', 'wn[]', 'wV[]', 'wB[]', 'wV[sp]', 'wB[sl]', 'wn[sp+rs]', 'wV[rt+el]', 'wB[sp+st]']
+CONTEXT = ['xt:V', 'xt:B', 'wn[]', 'wV[]', 'wB[]', 'wV[sp]', 'wB[sl]', 'wn[sp/rs]', 'wV[rt/el]', 'wB[sp/st]']
 
 def exhaustive(maxlen, alphabet=MUTATORS, must_contain=None, durs=DURS):
     width = max(len(flat([t])) for t in alphabet)
@@ -437,7 +486,7 @@ def rand_context_token(rng):
     r = rng.random()
     if r < 0.25: return 'xt:' + rng.choice('VB')
     body = [rand_token(rng) for _ in range(rng.choice([0, 0, 1, 1, 2, 3]))]
-    return 'w%s[%s]' % (rng.choice('nVVBB'), '+'.join(body))
+    return 'w%s[%s]' % (rng.choice('nVVBB'), '/'.join(body))
 
 def rand_case(rng, maxlen):
     n = rng.randint(1, maxlen)
@@ -461,16 +510,91 @@ def rand_case(rng, maxlen):
     else: d = rng.choice([0, 0, 1, 2, 3, 5, 7, 50, 1000, 1001, 10 ** 6, 10 ** 12, rng.randint(0, 3000)])
     return {'op': 'run', 'scale': scale, 'dint': rng.random() < 0.5, 'durs': [d], 'ops': ops, 'clocks': [clock]}
 
+# ---- float clocks: arbitrary finite doubles
+F_STEPS = [0.1, 0.1, 0.2, 0.3, 1e-9, 1e-9, 2.5e-7, 0.0, 1.0, 1 / 3, 3600.0, 1e-300, 5e-324, 123456.789, 1e15]
+F_BASES = [0.0, 0.1, 1e15 + 0.3, 1234.5678, 4.9e-324, 1e-9, 86400.3, 2.0 ** 52 + 0.5, 1e300]
+F_DURS = [0.1, 0.3, 0.25, 1e-9, 0.0, 2.0, 1e15, 0.30000000000000004, 1.1, 1e-320, 86400.0, 5.0]
+
+def f_clock(base, steps, n):
+    out = [base]
+    for i in range(n - 1):
+        out.append(out[-1] + steps[i % len(steps)])
+    return [float(x).hex() for x in out]
+
+F_PATTERNS = {'tenth': (0.1, [0.1]), 'absorbed': (1e15 + 0.3, [1e-9]), 'nano': (86400.3, [1e-9, 2.5e-7]),
+              'back': (0.7, [0.4, -0.6, 0.1])}
+
+def f_exhaustive(maxlen, alphabet):
+    width = max(len(flat([t])) for t in alphabet)
+    durs = [None, (0.3).hex(), (1e-9).hex()]
+    for n in range(1, maxlen + 1):
+        clocks = [f_clock(b, st, 2 * n * width + 2) for b, st in F_PATTERNS.values()]
+        for ops in itertools.product(alphabet, repeat=n):
+            yield {'op': 'frun', 'durs': durs, 'ops': list(ops), 'clocks': clocks}
+
+F_MUTATORS = ['st', 'sp', 'rs', 'rt', 'sl', 'el', 'el:' + (0.15).hex(), 'lo', 'lo:T', 'ex', 'xt', 'wV[sl]']
+
+def rand_float(rng):
+    r = rng.random()
+    if r < 0.5: return rng.choice(F_DURS)
+    if r < 0.8: return rng.random() * 10 ** rng.randint(-12, 12)
+    import struct
+    while True:
+        x = struct.unpack('<d', struct.pack('<Q', rng.getrandbits(64) & 0x7FFFFFFFFFFFFFFF))[0]
+        if x == x and x != float('inf') and x < 1e300: return x
+
+def rand_float_case(rng, maxlen):
+    n = rng.randint(1, maxlen)
+    ops = []
+    for _ in range(n):
+        t = rand_context_token(rng) if rng.random() < 0.1 else rand_token(rng)
+        if t[:3] == 'el:' and t[3:] != 'N':
+            m = rand_float(rng)
+            if rng.random() < 0.15: m = -m
+            t = 'el:' + (float(m) + 0.0).hex()          # + 0.0: never -0.0 (its sign is not transported to the model)
+        ops.append(t)
+    # composite tokens carry their own random bodies: rewrite el:<int> inside them too
+    def fix(tok):
+        if tok[0] == 'w' and '[' in tok:
+            kind, body = parse_with(tok)
+            body = [('el:' + float(rand_float(rng)).hex()) if (b[:3] == 'el:' and b[3:] != 'N') else b for b in body]
+            return 'w%s[%s]' % (kind, '/'.join(body))
+        return tok
+    ops = [fix(t) for t in ops]
+    if rng.random() < 0.7: ops.insert(rng.randint(0, min(2, len(ops))), rng.choice(['st', 'en', 'rt']))
+    m = 2 * len(flat(ops)) + 2
+    kind = rng.random()
+    x = rng.choice(F_BASES) if rng.random() < 0.7 else rand_float(rng)
+    clock = [x]
+    for _ in range(m - 1):
+        st = rng.choice(F_STEPS) if rng.random() < 0.8 else rand_float(rng) * 1e-3
+        if kind > 0.75 and rng.random() < 0.35: st = -st              # a clock that sometimes goes backwards
+        nx = clock[-1] + st
+        if nx != nx or nx in (float('inf'), float('-inf')): nx = clock[-1]
+        clock.append(nx)
+    q = rng.random()
+    if q < 0.15: d = None
+    elif q < 0.22: d = 'D'
+    elif q < 0.26: d = (-rand_float(rng) + 0.0).hex() if rng.random() < 0.5 else (-0.5).hex()
+    else: d = float(rand_float(rng)).hex()
+    return {'op': 'frun', 'dint': rng.random() < 0.3, 'durs': [d], 'ops': ops, 'clocks': [[(float(v) + 0.0).hex() for v in clock]]}
+
 def gen_cases(rng, tier):
     # boundary histories first
     yield {'op': 'run', 'scale': 1, 'durs': DURS + ['D'], 'ops': [], 'clocks': std_clocks(2)}
     yield from exhaustive(4 if tier == 'quick' else 5)
-    yield from exhaustive(3, MUTATORS + CONTEXT, must_contain=set(CONTEXT),
-                          durs=[None, 3] if tier == 'quick' else DURS)
+    ctx = CONTEXT[:7] if tier == 'quick' else CONTEXT
+    yield from exhaustive(3, MUTATORS + ctx, must_contain=set(ctx), durs=[None, 3] if tier == 'quick' else DURS)
     for _ in range(3000 if tier == 'quick' else 60000):
         yield rand_case(rng, 40)
     for _ in range(100 if tier == 'quick' else 2000):
         yield rand_case(rng, 400)
+    # the binary64 instance of the model on arbitrary finite doubles
+    yield from f_exhaustive(3 if tier == 'quick' else 4, F_MUTATORS)
+    for _ in range(1500 if tier == 'quick' else 40000):
+        yield rand_float_case(rng, 30)
+    for _ in range(40 if tier == 'quick' else 800):
+        yield rand_float_case(rng, 300)
 
 FULL_ALPHABET = MUTATORS + OBSERVERS + ['el:N', 'lo:F'] + CONTEXT
 
@@ -516,18 +640,26 @@ def explore(tu, d, clock, depth, alphabet=FULL_ALPHABET):
     finally:
         tu.now = saved
 
+BASE_ALPHABET = MUTATORS + OBSERVERS + ['el:N', 'lo:F']
+
 def extra_checks(rng, tier):
     tu = _tu()
-    depth = 6 if tier == 'quick' else 10
-    for d in DURS + ['D']:
-        for pname, pat in PATTERNS.items():
-            clock = clock_of(pat, 2 * depth * max(len(flat([t])) for t in FULL_ALPHABET) + 2)
-            path, msg, visited, covered = explore(tu, d, clock, depth)
-            case = {'op': 'run', 'scale': 1, 'durs': [d], 'ops': path or [], 'clocks': [clock]}
-            yield ('all-sequences-upto-%d:%s' % (depth, pname), case,
-                   None if msg is None else 'duration %r, clock %s: %s' % (d, pname, msg))
+    plans = [('plain', BASE_ALPHABET, 6 if tier == 'quick' else 10), ('context', FULL_ALPHABET, 4 if tier == 'quick' else 6)]
+    for label, alphabet, depth in plans:
+        width = max(len(flat([t])) for t in alphabet)
+        for d in DURS + ['D']:
+            for pname, pat in PATTERNS.items():
+                clock = clock_of(pat, 2 * depth * width + 2)
+                path, msg, visited, covered = explore(tu, d, clock, depth, alphabet)
+                case = {'op': 'run', 'scale': 1, 'durs': [d], 'ops': path or [], 'clocks': [clock]}
+                yield ('all-%s-sequences-upto-%d:%s' % (label, depth, pname), case,
+                       None if msg is None else 'duration %r, clock %s: %s' % (d, pname, msg))
 
 def classify(c, io):
+    if c['op'][0] == 'f':
+        if len(c['durs']) > 1: return 'float-exhaustive:len%d' % len(c['ops'])
+        clock = [float.fromhex(x) for x in c['clocks'][0]]
+        return 'float-random:%s' % ('monotonic' if all(a <= b for a, b in zip(clock, clock[1:])) else 'backwards')
     if len(c['durs']) > 1: return 'exhaustive%s:len%d' % ('' if c['op'] == 'last' else '-context', len(c['ops']))
     clock = c['clocks'][0]
     mono = all(a <= b for a, b in zip(clock, clock[1:]))
@@ -540,8 +672,10 @@ def trivial(c, io):
 def search(rng, budget):
     yield from exhaustive(3, MUTATORS + CONTEXT, must_contain=set(CONTEXT))
     yield from exhaustive(4)
+    yield from f_exhaustive(2, F_MUTATORS)
     for _ in range(budget):
         yield rand_case(rng, 30)
+        yield rand_float_case(rng, 20)
 
 RULE = ('correspondence + oracle: every call sequence of length 1..4 (quick) / 1..5 (thorough) over the 12 state-touching calls {start, stop, '
         'resume, restart, split, elapsed(), elapsed(2), leftover(), leftover(return_none=True), expired, __enter__, __exit__} x durations '
@@ -550,32 +684,48 @@ RULE = ('correspondence + oracle: every call sequence of length 1..4 (quick) / 1
         'statements with bodies of 0-2 calls that end normally or raise either class) containing at least one of the latter; random histories of length <= 40 and <= 400 over the full '
         'alphabet incl. has_started/has_stopped/splits, maxima incl. negative ones, durations incl. default/None/negative/10^12, dyadic '
         'scales {1, 1/4, 1/1024}, monotonic, constant, mixed and mostly-backwards clocks.  Oracle only (extra check all-sequences-upto-n): '
-        'EVERY sequence of length <= 6 (quick) / <= 10 (thorough) over the full 27-token alphabet (incl. the 10 context-manager tokens) x durations {None, default, 0, 3, 10^6} x '
+        'EVERY sequence of length <= 6 (quick) / <= 10 (thorough) over the 17 plain tokens, and of length <= 4 / <= 6 over all 27 tokens '
+        '(incl. the 10 context-manager tokens), x durations {None, default, 0, 3, 10^6} x '
         'the 4 clocks, by exhaustive exploration of the configuration graph (histories leaving the object with equal __dict__, clock '
-        'position and reference state are continued once).  distinct = distinct case JSON; trivial = empty history')
-TRUSTED = ['timeutils.now is replaced by a scripted clock (the property fixes the clock as an input); clock readings, durations and maxima are '
-           'integer multiples of a power-of-two unit, so CPython float arithmetic on them is exact and is modelled by Z',
-           'tools/gen/gen_C13.py: statement-level translator of class StopWatch (A-normal form, explicit state threading, state kept on raise)']
-ASSUMPTIONS = ['all-sequences-upto-n explores configurations, not sequences: it relies on a StopWatch\'s behaviour being a function of its '
+        'position and reference state are continued once).  binary64 instance (ops frun): every sequence of length 1..3 (quick) / 1..4 over 12 '
+        'calls x durations {None, 0.3, 1e-9} x float clocks {+0.1 steps, 1e15+0.3 with absorbed 1e-9 steps, 86400.3 with 1e-9 / 2.5e-7 steps, '
+        'backwards}; random float histories (<= 30 and <= 300 calls) with readings/durations/maxima drawn from non-dyadic constants, '
+        'x * 10^k, and uniformly random finite bit patterns, steps incl. 5e-324, 1e-300, 1e15; compared bit-exactly (float.hex).  '
+        'distinct = distinct case JSON; trivial = empty history')
+TRUSTED = ['timeutils.now is replaced by a scripted clock (the property fixes the clock as an input)',
+           'tools/gen/gen_C13.py: statement-level translator of class StopWatch (A-normal form, explicit state threading, state kept on raise), '
+           'generic in the number type: 0.0, -, >, >=, max/min are the only numeric operations it emits',
+           'Base/PyFloat.v: binary64 on the standard library\'s SpecFloat (SFsub, SFltb, SFleb, binary_normalize, float.hex printer), tied to CPython '
+           'bit-exactly by the float correspondence of this property; Flocq 4.1 (Bminus_correct, Bleb_correct, round_le) for the monotonicity of float '
+           'subtraction: the 4 theorems that use it print the standard library\'s classical-reals axioms (sig_forall_dec, sig_not_dec, classic, '
+           'functional_extensionality_dep), all other theorems are closed under the global context']
+ASSUMPTIONS = ['all-*-sequences-upto-n explores configurations, not sequences: it relies on a StopWatch\'s behaviour being a function of its '
                '__dict__ and of the clock position (no hidden state)',
-               'clock readings/durations/maxima are modelled as integers (Z): the harness only scripts integer multiples of 2^-k (k in {0,2,10}) '
-               'below 2^53, for which float subtraction, max and comparison are exact; rounding of arbitrary floats is not modelled',
-               'the oracle accepts, for a call that reads the clock more than once, any of the readings as "now" (restart reads it twice)',
+               'the exact clauses (elapsed = now - started_at, lengths = successive differences) are theorems of every totally ordered abelian group '
+               '(Z is the instance tied to the implementation through dyadic clocks, where float arithmetic is exact); on arbitrary doubles they '
+               'hold with the IEEE subtraction in place of the exact one — that is what the code computes (theorems C13_float_*, model instance Fnum, '
+               'tied bit-exactly to the implementation on arbitrary finite doubles)',
+               'float inputs of the harness are finite doubles, never -0.0 (its sign is not transported to the model); NaN / infinite readings are '
+               'covered by the theorems (elapsed is never negative nor NaN for ANY readings) but not scripted',
+               'the oracle accepts, for a call that reads the clock more than once, any of the readings as "now" (restart reads it twice); on a float '
+               'clock its expected distance is the exact rational difference correctly rounded (fractions.Fraction), not a float subtraction',
                'thread-safety is out of scope (the class documents itself as not thread-safe)']
-LEVEL_TEXT = ('Unbounded theorems (induction over all call sequences of any length and all clock streams) about a model of StopWatch that is '
-              'proved equal, method by method (15 gen_*_equiv obligations), to a statement-level translation of the class regenerated from the '
-              'source on every run: elapsed never negative on any clock; = now - started_at while running and = stopped_at - started_at while '
-              'stopped under a monotonic clock (clamped at 0 otherwise), with started_at / stopped_at proved to be the readings of the last '
-              '(re)start / stop of the history; elapsed(maximum) <= maximum for maximum >= 0 (the literal clause for negative maxima is refuted: '
-              'it contradicts non-negativity); leftover = max(0, duration - elapsed) and the no-duration cases; expired <-> elapsed > duration; '
-              'splits non-decreasing with lengths = successive differences under a monotonic clock, cleared exactly by (re)starts; the full '
-              'legality table (13 methods x 3 states): every illegal call raises RuntimeError and leaves watch and clock untouched, every legal '
-              'call of every history returns, no other exception is ever raised; number of clock readings per call; context-manager protocol: '
-              '__exit__ with or without an exception triple never raises, returns None (the exception of the with body propagates) and stops a '
-              'running watch, and after any with block (any body, raising or not) the watch is stopped. The arithmetic facts are '
-              'also proved for every ordered abelian group (not only Z).')
+LEVEL_TEXT = ('Unbounded theorems (induction over all call sequences of any length and all clock streams), generic in the number type T of the clock '
+              '(operations 0.0, -, >, >=), about a model of StopWatch proved equal for every T, method by method (16 gen_*_equiv obligations), to a '
+              'statement-level translation of the class regenerated from the source on every run. For every T, no premise: the full legality table '
+              '(14 calls x 3 states), illegal calls raise RuntimeError and leave watch and clock untouched, legal calls return, no other exception, '
+              'state transitions, which call sets _started_at / _stopped_at (history-wise: last (re)start / last stop), splits appended by split and '
+              'cleared exactly by (re)starts, elapsed = max(0, now - started_at) resp. max(0, stopped_at - started_at) cut at the maximum, leftover, '
+              'expired, clock readings per call, the context-manager protocol (__exit__ with an exception triple; any with block leaves the watch '
+              'stopped). For every totally ordered abelian group (premises = the group axioms; Z is the instance): never negative, exactly now - '
+              'started_at under a monotonic clock, <= a non-negative maximum (the literal clause for negative maxima is refuted), leftover = max(0, '
+              'duration - elapsed), expired <-> elapsed > duration, splits non-decreasing with lengths = successive differences. For binary64 '
+              '(SpecFloat; executable instance tied bit-exactly to the implementation on arbitrary finite doubles): never negative nor NaN for ANY '
+              'readings, elapsed(maximum) <= maximum, leftover >= 0, expired <-> elapsed > duration as float comparison, and on valid finite monotone '
+              'readings without overflow now (-) started_at >= 0 and split elapsed values never decrease (IEEE subtraction is monotone); the exact '
+              'clauses hold with the IEEE subtraction in place of the exact one.')
 LEVEL_NOTE = ('Trusted: Coq kernel; the translator tools/gen/gen_C13.py (CPython ast; A-normal form, state kept on raise, fail-closed with baseline '
-              'fallback); numbers modelled as Z — the harness scripts clocks/durations/maxima that are integer multiples of 2^-k below 2^53, where '
-              'float arithmetic is exact (rounding of arbitrary floats is not modelled); timeutils.now is an input (scripted clock); '
-              'thread-safety out of scope. Correspondence compares every return value, exception class, number of now() calls and the five '
-              'private fields after every call. Closed under the global context (no axioms).')
+              'fallback); Base/PyFloat.v (binary64 on SpecFloat) and Flocq for float monotonicity; timeutils.now is an input (scripted clock); '
+              'thread-safety out of scope. Correspondence compares every return value, exception class, number of now() calls and the five private '
+              'fields after every call, for the Z instance (dyadic clocks) and the binary64 instance (arbitrary doubles, float.hex). 58 theorems closed '
+              'under the global context; the 4 float-monotonicity theorems list the standard library\'s classical-reals axioms that Flocq rests on.')
